@@ -31,23 +31,20 @@ Definition pk_elem_cmp (x y : bytes) : comparison :=
   | None, Some _ => Nat.compare (pk_weight x) hash_weight
   end.
 
-(* the longer side's remaining components against an implicit "#":
-     next := a[len(b)]; if strconv.Atoi(next) succeeds -> +1
-     else comparePackagistComponents(a[len(b):], {"#"})  (one element comparison, then the same again)
-   strconv.Atoi fails on numbers outside int64, which convertToBigInt accepts: such a component
-   compares EQUAL to "#" and the scan moves on. *)
+(* the longer side's remaining components against an implicit "#" (after fix cefe0305):
+     next := a[len(b)]; if convertToBigInt(next) succeeds -> +1
+     else comparePackagistComponents(a[len(b):], {"#"})  (one element comparison, then the same again) *)
 Fixpoint pk_tail_cmp (rest : list bytes) : comparison :=
   match rest with
   | [] => Eq
   | x :: r =>
-    if atoi_ok x then Gt
-    else match (match big_of_string x with
-                | Some _ => Eq                                   (* special("#", "#") *)
-                | None => Nat.compare (pk_weight x) hash_weight   (* special(x, "#") *)
-                end) with
-         | Eq => pk_tail_cmp r
-         | c => c
-         end
+    match big_of_string x with
+    | Some _ => Gt
+    | None => match Nat.compare (pk_weight x) hash_weight with     (* special(x, "#") *)
+              | Eq => pk_tail_cmp r
+              | c => c
+              end
+    end
   end.
 
 Fixpoint pk_cmp (a b : list bytes) {struct a} : comparison :=
@@ -61,10 +58,11 @@ Fixpoint pk_cmp (a b : list bytes) {struct a} : comparison :=
 Definition cmp_packagist (v w : packagist) : outcome comparison :=
   Ok (pk_cmp (pk_components v) (pk_components w)).
 
-(* valid component: a number that fits int64 (domain D of the finding) or a qualifier that is not '#...' *)
+(* valid component (domain D): a number, or a qualifier that is not '#...' ('#' is the stand-in for
+   "a number": it ties with EVERY number, so equality is not transitive through it) *)
 Definition pk_comp_ok (x : bytes) : bool :=
   match big_of_string x with
-  | Some _ => atoi_ok x
+  | Some _ => true
   | None => negb (Nat.eqb (pk_weight x) hash_weight)
   end.
 Definition valid_packagist (v : packagist) : bool := forallb pk_comp_ok (pk_components v).
